@@ -264,7 +264,10 @@ func main() {
 		for i, t := range execBases {
 			for j, k := range execKillMs {
 				// a child that only SIGKILL ends meets every kill timeout on every seed; the others rotate
-				if (strings.HasPrefix(t.kind, "exec_sleep_ignores_int") && (t.files == nil || k == 150 || k == 2000)) || (t.files == nil && (i+j+int(o.Seed))%2 == 0) || o.N > 200 {
+				// pinned: every real-child template meets every kill timeout on EVERY seed (the scripts without #!
+				// only the two positive ones); nothing here depends on o.Seed
+				_, _ = i, j
+				if t.files == nil || k == 150 || k == 2000 {
 					addExec(t, 150+50*((i+j)%3), k)
 				}
 			}
